@@ -534,6 +534,20 @@ pub fn gen_metadata(rng: &mut Rng) -> Value {
     Value::Object(m)
 }
 
+/// a `*` in the program together with a large integer in the event: `"s" * .n` would repeat the string
+/// billions of times (the implementation allocates gigabytes, the Lean model overflows its stack)
+pub fn risky_case(src: &str, event: &Value) -> bool {
+    fn big(v: &Value) -> bool {
+        match v {
+            Value::Integer(i) => i.unsigned_abs() > 100_000,
+            Value::Array(a) => a.iter().any(big),
+            Value::Object(m) => m.values().any(big),
+            _ => false,
+        }
+    }
+    src.contains('*') && big(event)
+}
+
 pub fn generate(sink: &mut Sink, rng: &mut Rng, n: u64, with_faults: bool, oracle: Option<&str>) {
     let mut accepted = 0u64;
     let mut tried = 0u64;
@@ -561,6 +575,10 @@ pub fn generate(sink: &mut Sink, rng: &mut Rng, n: u64, with_faults: bool, oracl
         for _ in 0..3 {
             let event = gen_event(rng);
             let meta = gen_metadata(rng);
+            if risky_case(&src, &event) || risky_case(&src, &meta) {
+                sink.count("lang:skipped_huge_repeat_event");
+                continue;
+            }
             let faults = if with_faults && rng.chance(1, 2) {
                 let k = 1 + rng.below(2);
                 (0..k).map(|_| rng.below(10).to_string()).collect::<Vec<_>>().join(" ")
